@@ -80,6 +80,10 @@ def call_external(I, name, args, kwargs, node, frame):
         if k:
             raise E.PyExc(VExc(["JSONDecodeError", "RecursionError", "ValueError"][k - 1]), "json.loads")
         return VAny(_fn("json_loads", z3.StringSort(), AnySort)(args[0].t), "json")
+    if name == "re.compile":
+        if run.choose([("ok", None), ("re.error", None)], "re.compile"):
+            raise E.PyExc(VExc("error"), "re.compile")
+        return VAny(_fn("re_compile", z3.StringSort(), AnySort)(args[0].t), "pattern")
     if name == "ast.parse":
         k = run.choose([("ok", None), ("SyntaxError", None), ("ValueError", None), ("RecursionError", None), ("MemoryError", None)],
                        "ast.parse")
@@ -444,6 +448,13 @@ def str_method(I, s, name, args, kwargs):
             return VBool(z3.Or([z3.SuffixOf(x.t, s.t) for x in a.items]))
         return VBool(z3.SuffixOf(a.t, s.t))
     if name == "encode":
+        errs = kwargs.get("errors") or (args[1] if len(args) > 1 else None)
+        if errs is not None:
+            e_ = E.simp(errs.t) if isinstance(errs, VStr) else None
+            if e_ is not None and z3.is_string_value(e_) and e_.as_string() in ("surrogatepass", "replace", "ignore", "backslashreplace",
+                                                                                  "xmlcharrefreplace", "surrogateescape", "namereplace"):
+                # with an error handler the utf-8 encoder is total on str
+                return VAny(_fn("encode_" + e_.as_string(), S, AnySort)(s.t), "bytes")
         ok = _fn("encodable", S, z3.BoolSort())(s.t)
         if not run.decide(ok, f"encodable({s.t})"[:60]):
             raise E.PyExc(VExc("UnicodeEncodeError"), "str.encode")
